@@ -122,6 +122,7 @@ fn main() {
 		("u16", "C04", "VERIF_BIN_U16_C04"),
 		("u16", "C14", "VERIF_BIN_U16_C14"),
 		("u32", "C15", "VERIF_BIN_U32_C15"),
+		("u32", "C07", "VERIF_BIN_U32_C07"),
 		("u16", "C05", "VERIF_BIN_U16_C05"),
 		("u16", "C06", "VERIF_BIN_U16_C06"),
 		("f32", "C02", "VERIF_BIN_F32_C02"),
